@@ -173,7 +173,16 @@ func constVal(c *ssa.Const) *Val {
 	panic(fmt.Sprintf("unsupported constant %v", c))
 }
 
+// realLitVal remembers the float64 behind a real literal (constant folding of math functions on literals)
+var realLitVal = map[int]float64{}
+
 func realLit(f float64) *Term {
+	t := realLit0(f)
+	realLitVal[t.id] = f
+	return t
+}
+
+func realLit0(f float64) *Term {
 	r := new(big.Rat)
 	r.SetFloat64(f)
 	s := fmt.Sprintf("(/ %s.0 %s.0)", r.Num().String(), r.Denom().String())
